@@ -357,6 +357,58 @@ theorem renderer_builtins_have_the_modelled_type :
     parserErrorStatus = [("Syntax", "_", "ERROR"), ("Io", "DotScript", "ERROR"), ("Io", "_", "READ_ERROR")] := by
   decide
 
+/-! ### wave 3: the interactive shell; parser errors by place -/
+
+/-- The interactive shell (docs/src/termination.md, right-hand column; `read_eval_loop_impl` with
+    `is_interactive = true`, driven in-process with the `Interactive` option on): an expansion error in the words
+    of the first command of a line aborts the line — the rest of it is skipped, `$? = 2`, reading resumes — unless
+    errexit applies, then the shell exits with 2; an error of a special built-in aborts the line with the
+    built-in's status and reading resumes WHETHER OR NOT errexit is set (the documentation says "exit if errexit":
+    the code returns `Interrupt(None)` without an errexit check — outside C10, which is about non-interactive
+    shells; recorded here as what the code does). -/
+theorem interactive_shell_error_consequences (fuel : Nat) (s : St) (ex : Bool) (t : Target) (r : Redirs)
+    (a : Assigns) (more : List Stmt) (rest : List ScLine) (cs acs : Option Nat) (st : Nat) :
+    (s.errexitApplicable = false →
+      readEvalLoop true fuel s ex (.cmds (.plain (.mk .error t r a) :: more) :: rest) =
+        readEvalLoop true fuel { s with status := ERROR } true rest) ∧
+    (s.errexitApplicable = true →
+      readEvalLoop true fuel s ex (.cmds (.plain (.mk .error t r a) :: more) :: rest) =
+        (s, .break_ (.exit (some ERROR)))) ∧
+    readEvalLoop true fuel s ex
+        (.cmds (.plain (.mk (.ok cs) (.builtin .special (.report st)) .none (.ok acs)) :: more) :: rest) =
+      readEvalLoop true fuel { s with status := st } true rest := by
+  refine ⟨fun h => ?_, fun h => ?_, ?_⟩
+  · have hx : execStmts fuel s (.plain (.mk .error t r a) :: more) = (s, .break_ (.interrupt (some ERROR))) := by
+      simp [execStmts, execStmt, execSimple, handleExpansionError, h]
+    have := (interactive_resumes_after_interrupt fuel s ex _ rest (some ERROR)).1 (by rw [hx])
+    rw [this, hx]
+  · have hx : execStmts fuel s (.plain (.mk .error t r a) :: more) = (s, .break_ (.exit (some ERROR))) := by
+      simp [execStmts, execStmt, execSimple, handleExpansionError, h]
+    have := (interactive_resumes_after_interrupt fuel s ex _ rest (some ERROR)).2 (by rw [hx])
+    rw [this, hx]
+  · have hb := (special_builtin_error_aborts fuel s cs acs .none st (by intro x; exact Redirs.noConfusion)).1
+    have hx : execStmts fuel s (.plain (.mk (.ok cs) (.builtin .special (.report st)) .none (.ok acs)) :: more) =
+        ({ s with status := st }, .break_ (.interrupt none)) := by
+      simp only [execStmts, execStmt, hb]
+    have := (interactive_resumes_after_interrupt fuel s ex _ rest none).1 (by rw [hx])
+    rw [this, hx]
+
+/-- Where a text that does not parse / cannot be read is met, and what that does to a non-interactive shell
+    (`Handle for parser::Error`, status column generated from handle.rs): in the main input, in `eval`, in a
+    `.` script — `Interrupt(Some(ERROR))`, the shell ends with 2 (for a trap action: `syntax_error_inside_exit_action`);
+    a read error of a `.` script is `ERROR` too; a read error of the main input is `READ_ERROR` = 128. -/
+theorem syntax_and_read_errors_by_place (fuel : Nat) (s : St) (ex : Bool) (rest : List ScLine) :
+    readEvalLoop false fuel s ex (.syntaxError :: rest) = (s, .break_ (.interrupt (some ERROR))) ∧
+    (execBody fuel s .evalSyn).2.2 = .break_ (.interrupt (some ERROR)) ∧
+    (execBody fuel s .dotSyn).2.2 = .break_ (.interrupt (some ERROR)) ∧
+    (execBody fuel s .dotIoErr).2.2 = .break_ (.interrupt (some ERROR)) ∧
+    handleParserError false false = .break_ (.interrupt (some READ_ERROR)) ∧
+    parserErrorStatus = [("Syntax", "_", "ERROR"), ("Io", "DotScript", "ERROR"), ("Io", "_", "READ_ERROR")] ∧
+    ERROR = 2 ∧ READ_ERROR = 128 := by
+  refine ⟨by simp [readEvalLoop, handleParserError], by simp [execBody, handleParserError],
+    by simp [execBody, handleParserError], by simp [execBody, handleParserError], by simp [handleParserError],
+    by decide, rfl, rfl⟩
+
 /-! ### non-vacuity -/
 
 /-- `. ./missing <ok` directly: aborts with 1; under `command`: continues; the classification says so -/
